@@ -87,7 +87,8 @@ def run_flow_check(pid, tier, own, closed_cases, real_cases, gen=0, gen_kw=None,
                 inst = dict(inst); inst["pre"] = sorted(o for t in sub for o in t["outs"])
                 exp = fc.expected(inst)
         cmds = [p["name"] for p in inst["procs"] if p["kind"] in ("cmd", "gofunc")]
-        vs = fc.jitter_variants(lrng, nvar, bufs=(inst.get("bufsize", 1), 1, 2, 128), procs=cmds, fixed_ctl=bool(inst.get("ctl")))
+        bufs = tuple(b for b in (inst.get("bufsize", 1), 1, 2, 128) if b >= inst.get("minbuf", 1))     # minbuf: documented limits of a component
+        vs = fc.jitter_variants(lrng, nvar, bufs=bufs, procs=cmds, fixed_ctl=bool(inst.get("ctl")))
         if inst.get("ctl"):       # timing scenarios keep their own buffer size
             for v in vs: v["bufsize"] = inst.get("bufsize", 1)
         if label.startswith("cex:"):
@@ -128,7 +129,10 @@ QUICK_CLOSED = [("Z1", dict(n=2)), ("Z2", dict(n=2)), ("Z3", dict(n=2)), ("Z4", 
                 ("Z5c", dict(n=3, m=1)), ("Z5c", dict(n=2, m=0)),
                 # empty streams: no file source item, no parameter value, one of two ports empty, a leaf driver with nothing to do
                 ("Z1", dict(n=0)), ("Z3", dict(n=0)), ("Z5", dict(n=3, m=0)), ("Z6", dict(n=0)), ("Z9", dict(n=0)), ("Z16", dict(n=0)),
-                ("Z20", dict(n=3, buf=1))]
+                ("Z20", dict(n=3, buf=1)),
+                # combinators inside the dataflow: three-port ParamCombinator, partly consumed ParamCombinator, FileCombinator with independent
+                # upstreams and with one shared upstream (at its documented limit: as many items as the buffer holds)
+                ("PC3", dict(nx=1, ny=1, nz=2)), ("PC2S", dict(n=2)), ("FC2", dict(n=2, m=2)), ("FCS", dict(n=2, buf=2))]
 THOROUGH_CLOSED = QUICK_CLOSED + [("Z1", dict(n=3)), ("Z1", dict(n=3, buf=2)), ("Z2", dict(n=2, buf=2)), ("Z3", dict(n=2, buf=2, mx=1)),
                                   ("Z4", dict(n=2)), ("Z9", dict(n=2)), ("Z13", dict(n=1)), ("Z5b", dict(n=3, m=1)),
                                   ("Z7", dict(n=2, mx=1)), ("Z10", dict(n=4, buf=2, mx=2)), ("Z6", dict(n=3))]
@@ -138,6 +142,8 @@ REAL = [("Z1", dict(n=4)), ("Z2", dict(n=4)), ("Z3", dict(n=4)), ("Z4", dict(n=3
         # stream lengths 0 and far beyond the small buffer sizes
         ("Z1", dict(n=0)), ("Z3", dict(n=0)), ("Z5", dict(n=3, m=0)), ("Z6", dict(n=0)), ("Z9", dict(n=0)), ("Z16", dict(n=0)), ("Z7", dict(n=0)),
         ("Z10", dict(n=40, mx=4, buf=16)), ("Z3", dict(n=24, mx=4, buf=8)),
+        ("PC3", dict(nx=2, ny=3, nz=2)), ("PC3", dict(nx=1, ny=2, nz=3, buf=2)), ("PC2S", dict(n=4, buf=1)), ("PC2S", dict(n=7, buf=2)),
+        ("FC2", dict(n=2, m=3)), ("FC2", dict(n=3, m=3, buf=2)), ("FC2", dict(n=0, m=2)), ("FCS", dict(n=2, buf=2), dict(minbuf=2)), ("FCS", dict(n=3, buf=4), dict(minbuf=3)),
         # partially completed earlier runs: outputs of later items exist already
         ("Z1", dict(n=4, mx=3), dict(pre=["a.out_3_w"])), ("Z1", dict(n=4, mx=3), dict(pre=["a.out_2_v", "a.out_4_y"])),
         ("Z3", dict(n=4, mx=3), dict(pre=["a.out_3", "b.out_2"])), ("Z2", dict(n=3), dict(pre=["a.out_2", "a.out_3"]))]
